@@ -161,14 +161,27 @@ func init() {
 		if g.opts.safety {
 			g.obligeAssume("panic", "strings.Repeat negative count", in.Pos(), app(">=", a[1], "0"), nil)
 		}
-		g.declareFun("strRepeat", "(String Int) String")
 		r := g.define("rep", "String", app("strRepeat", a[0], a[1]))
 		g.assume(sEq(app("str.len", r), app("*", app("str.len", a[0]), a[1])))
 		return []string{r}
 	})
 	def("strings.ReplaceAll", none, func(g *gen, st *state, c *ssa.CallCommon, a []string, in ssa.Instruction) []string {
-		g.declareFun("strReplaceAll", "(String String String) String")
 		return []string{g.define("repl", "String", app("strReplaceAll", a[0], a[1], a[2]))}
+	})
+
+	def("strings.EqualFold", none, func(g *gen, st *state, c *ssa.CallCommon, a []string, in ssa.Instruction) []string {
+		return []string{app("equalFold", a[0], a[1])}
+	})
+
+	// ---- time -----------------------------------------------------------------------------------------
+	def("(time.Time).Equal", none, func(g *gen, st *state, c *ssa.CallCommon, a []string, in ssa.Instruction) []string {
+		return []string{sEq(app("instant", a[0]), app("instant", a[1]))}
+	})
+	def("(time.Time).Before", none, func(g *gen, st *state, c *ssa.CallCommon, a []string, in ssa.Instruction) []string {
+		return []string{app("<", app("instant", a[0]), app("instant", a[1]))}
+	})
+	def("(time.Time).After", none, func(g *gen, st *state, c *ssa.CallCommon, a []string, in ssa.Instruction) []string {
+		return []string{app(">", app("instant", a[0]), app("instant", a[1]))}
 	})
 
 	// ---- strconv / fmt / errors ---------------------------------------------------------------------
@@ -184,8 +197,6 @@ func init() {
 	})
 	def("strconv.ParseInt", none, func(g *gen, st *state, c *ssa.CallCommon, a []string, in ssa.Instruction) []string {
 		// assumed: on success the value is intOfText(s, base) and fits the requested width
-		g.declareFun("intOfText", "(String Int) Int")
-		g.declareFun("intTextOk", "(String Int Int) Bool")
 		v := g.newConst("parsed", "Int")
 		e := g.newConst("perr", "Iface")
 		ok := sEq(app("i.typ", e), "0")
@@ -196,8 +207,6 @@ func init() {
 		return []string{v, e}
 	})
 	def("strconv.ParseFloat", none, func(g *gen, st *state, c *ssa.CallCommon, a []string, in ssa.Instruction) []string {
-		g.declareFun("fltOfText", "(String) Real")
-		g.declareFun("fltTextOk", "(String) Bool")
 		v := g.newConst("parsedf", "Real")
 		e := g.newConst("perr", "Iface")
 		ok := sEq(app("i.typ", e), "0")
@@ -206,8 +215,6 @@ func init() {
 		return []string{v, e}
 	})
 	def("strconv.Atoi", none, func(g *gen, st *state, c *ssa.CallCommon, a []string, in ssa.Instruction) []string {
-		g.declareFun("intOfText", "(String Int) Int")
-		g.declareFun("intTextOk", "(String Int Int) Bool")
 		v := g.newConst("parsed", "Int")
 		e := g.newConst("perr", "Iface")
 		ok := sEq(app("i.typ", e), "0")
